@@ -80,9 +80,12 @@ impl Prop for Framing {
                 // 0 = Connection's own receive methods; 1 = split + join before every receive;
                 // 2 = reply kinds through a two-call chain's reply stream
                 let api_mode = w.tape.draw(3);
-                let d = format!("systematic corpus[{idx}] style={style} cuts={cuts:?} cancel={:?} api_mode={api_mode}", w.cancel);
+                // one transient transport failure after g bytes (g >= len: none)
+                let g = w.tape.draw(2 * len);
+                let glitches = if g >= 1 && g < len && api_mode < 2 { vec![g] } else { Vec::new() };
+                let d = format!("systematic corpus[{idx}] style={style} cuts={cuts:?} cancel={:?} api_mode={api_mode} transient_read_errors_at={glitches:?}", w.cancel);
                 let p_cuts = cuts;
-                (script, (d, p_cuts, api_mode))
+                (script, (d, p_cuts, api_mode, glitches))
             } else {
                 w.cfg = Cfg::swarm(&mut w.tape);
                 // listener / stream buggify sites do not exist in this world
@@ -98,8 +101,18 @@ impl Prop for Framing {
                 // half of the runs use one entry point throughout, the others pick one per receive:
                 // Connection's methods, the read half, split + join in between, a chain's stream
                 let api_mode = if w.tape.draw(2) == 0 { 0 } else { 3 };
-                let d = format!("seeded cfg={:?} cancel={:?} api_mode={api_mode}", w.cfg, w.cancel);
-                (script, (d, Vec::new(), api_mode))
+                // one run in four: the transport fails transiently (an error result, after which
+                // the byte stream simply goes on) at one to three places
+                let mut glitches = Vec::new();
+                if w.tape.draw(4) == 3 {
+                    let len = script.stream().len();
+                    for _ in 0..1 + w.tape.draw(3) {
+                        glitches.push(1 + w.tape.draw(len.max(2) - 1));
+                    }
+                    glitches.sort();
+                }
+                let d = format!("seeded cfg={:?} cancel={:?} api_mode={api_mode} transient_read_errors_at={glitches:?}", w.cfg, w.cancel);
+                (script, (d, Vec::new(), api_mode, glitches))
             }
         };
         let api_mode = mode_desc.2;
@@ -110,6 +123,7 @@ impl Prop for Framing {
             let mut w = world.borrow_mut();
             let rd = w.scripted_pipe(&stream, true);
             w.pipes[rd].cuts = mode_desc.1.clone();
+            w.pipes[rd].read_glitch_at = mode_desc.3.clone();
             let wr = w.sink_pipe();
             w.step_cap = 50 * (stream.len() as u64 + 200);
             (rd, wr)
@@ -120,6 +134,8 @@ impl Prop for Framing {
         // the target type actually used for each result (a chain receives several frames as one type)
         let used: Rc<RefCell<Vec<usize>>> = Rc::new(RefCell::new(Vec::new()));
         let cancel = self.cancel;
+        // set when the connection kept failing after the script's transient failures were used up
+        let gave_up: Rc<RefCell<bool>> = Rc::new(RefCell::new(false));
         {
             let mut conn = Connection::new(W::socket(world, rd, wr));
             let mut ex = Exec::new();
@@ -127,6 +143,10 @@ impl Prop for Framing {
             let used2 = used.clone();
             let kinds = script.kinds.clone();
             let world2 = world.clone();
+            let n_glitches = mode_desc.3.len();
+            let glitchy = n_glitches > 0;
+            let gave_up2 = gave_up.clone();
+            let mut transport_errors = 0usize;
             ex.spawn(async move {
                 // n frames, then one more receive that must report end-of-stream
                 loop {
@@ -140,6 +160,9 @@ impl Prop for Framing {
                         0 => 0,
                         1 => 5,
                         2 => 6,
+                        // (a chain's reply stream ends at a transport error; with transient failures
+                        // in the script the receives go through the plain entry points)
+                        _ if glitchy => world2.borrow_mut().tape.draw(6),
                         _ => world2.borrow_mut().tape.draw(8),
                     };
                     if api >= 6 && (kind >= 3 || i == n) {
@@ -190,6 +213,22 @@ impl Prop for Framing {
                     } else {
                         frames::recv_kind(&mut conn, kind).await
                     };
+                    if glitchy {
+                        if let Res::ErrOther(_) = r {
+                            // A transport failure, not a frame's result: try again. (If the failures
+                            // outlast the script's transient ones the connection has given up for
+                            // good, which the statement does not forbid; the run ends there.)
+                            let mut w = world2.borrow_mut();
+                            w.ev("recv.transport_error", i as u64, 0);
+                            transport_errors += 1;
+                            if transport_errors > n_glitches + 2 {
+                                *gave_up2.borrow_mut() = true;
+                                break;
+                            }
+                            w.stat("receive_retried_after_transient_transport_error");
+                            continue;
+                        }
+                    }
                     world2.borrow_mut().ev("recv.result", i as u64, matches!(r, Res::Ok(_)) as u64);
                     used2.borrow_mut().push(kind);
                     results2.borrow_mut().push(r);
@@ -212,8 +251,15 @@ impl Prop for Framing {
         } else {
             None
         };
+        let gave_up = *gave_up.borrow();
+        if gave_up {
+            world.borrow_mut().stat("connection_gave_up_after_transport_errors");
+        }
         for i in 0..n {
             match got.get(i) {
+                // after transport failures a connection may refuse to go on; what it did deliver
+                // must still be right
+                None if gave_up => return Ok(sample),
                 None => {
                     return Err((
                         format!("{id}/missing-result"),
@@ -231,6 +277,7 @@ impl Prop for Framing {
         }
         match got.get(n) {
             Some(Res::ErrEof) => {}
+            None if gave_up => {}
             other => {
                 return Err((
                     format!("{id}/no-end-of-stream"),
@@ -284,6 +331,19 @@ impl Prop for Framing {
                     }
                 }
             }
+            // one transient transport failure at every offset: whole-stream and byte-by-byte
+            // delivery (and, for C07, every pending poll abandoned as well)
+            for style in [0u32, 3] {
+                for g in 1..len as u32 {
+                    let mut v = vec![SYS_MODE, idx, style];
+                    if self.cancel {
+                        v.push(if style == 3 { g % 3 } else { 0 });
+                    }
+                    v.push(0);
+                    v.push(g);
+                    tapes.push(v);
+                }
+            }
             // every pair of cuts for the short corpus
             let pair_limit = match (tier, self.cancel) {
                 (Tier::Quick, false) => 90,
@@ -291,6 +351,18 @@ impl Prop for Framing {
                 (Tier::Thorough, _) => 400,
             };
             if (idx as usize) < n_short && len <= pair_limit {
+                // every (cut, transient failure) pair
+                for c in 0..(len - 1) as u32 {
+                    for g in 1..len as u32 {
+                        let mut v = vec![SYS_MODE, idx, 1, c];
+                        if self.cancel {
+                            v.push((c + g) % 2);
+                        }
+                        v.push(0);
+                        v.push(g);
+                        tapes.push(v);
+                    }
+                }
                 let ks2: Vec<u32> = if self.cancel { vec![0, 1] } else { vec![0] };
                 for k in &ks2 {
                     for a in 0..(len - 1) as u32 {
